@@ -883,3 +883,106 @@ func ZZHarnessJustifiedProposal() {
 }
 
 func zzSymbolicFalse() bool { return false }
+
+// ---------------------------------------------------------------------------------------------
+// C07(c): round-change progress at the next leader. For a round-change quorum sent by correct operators
+// (shape 0: all unprepared; 1: one prepared at round 1; 2: two prepared on the same value at rounds 1 and 2;
+// 3: two prepared on DIFFERENT values at rounds 1 and 2 - reachable with one Byzantine operator) there must
+// be SOME delivery order after which the leader of the round proposes, and every other correct operator in
+// that round accepts the proposal and prepares.
+func ZZHarnessRCProgress() {
+	n := int(zzParam("N"))
+	round := specqbft.Round(zzParam("ROUND"))
+	height := specqbft.Height(zzNondetRange("iheight", 0, uint64(n)))
+	value := []byte{9}
+	share0 := zzShareFor(n, zzCommitteeIDs[n][0])
+	leader := zzLeader(share0, height, round)
+	shape := zzChoose("shape", 4)
+	if shape >= 2 && round < 3 {
+		shape = 1
+	}
+	q := int(share0.Quorum)
+	pv1, pv2 := []byte{5}, []byte{6}
+	orders := [][]int{{0, 1, 2}, {0, 2, 1}, {1, 0, 2}, {1, 2, 0}, {2, 0, 1}, {2, 1, 0}}
+	worked := 0
+	for _, order := range orders {
+		r := zzNewRig(n, leader, height, value)
+		zzAssume(r.valOK)
+		for r.inst.State.Round < round {
+			zzAssume(r.inst.UponRoundTimeout(r.lg) == nil)
+		}
+		var senders []spectypes.OperatorID
+		for _, c := range r.share.Committee {
+			if c.OperatorID != leader && len(senders) < q {
+				senders = append(senders, c.OperatorID)
+			}
+		}
+		mkPrepares := func(rd specqbft.Round, root [32]byte) []*specqbft.SignedMessage {
+			var ps []*specqbft.SignedMessage
+			for k := 0; k < q; k++ {
+				ps = append(ps, zzHonest(r.share.Committee[k].OperatorID, specqbft.Message{MsgType: specqbft.PrepareMsgType, Height: height, Round: rd, Identifier: r.id, Root: root}, nil))
+			}
+			return ps
+		}
+		var rcs []*specqbft.SignedMessage
+		for k, snd := range senders {
+			m := specqbft.Message{MsgType: specqbft.RoundChangeMsgType, Height: height, Round: round, Identifier: r.id}
+			var fd []byte
+			preparedAt, pv := specqbft.Round(0), pv1
+			if shape >= 1 && k == 0 {
+				preparedAt = 1
+			}
+			if shape >= 2 && k == 1 {
+				preparedAt = 2
+				if shape == 3 {
+					pv = pv2
+				}
+			}
+			if preparedAt != 0 {
+				proot, _ := zzHashDataRoot(pv)
+				m.Root, m.DataRound, fd = proot, preparedAt, pv
+				j, _ := specqbft.MarshalJustifications(mkPrepares(preparedAt, proot))
+				m.RoundChangeJustification = j
+			}
+			rcs = append(rcs, zzHonest(snd, m, fd))
+		}
+		before := len(r.net.msgs)
+		for _, i := range order {
+			if i < len(rcs) {
+				_, _, _, err := r.inst.ProcessMsg(r.lg, rcs[i])
+				zzAssert(err == nil, "leader-accepts-honest-roundchange")
+			}
+		}
+		var prop *specqbft.SignedMessage
+		for _, b := range r.net.msgs[before:] {
+			if b != nil && b.Message.MsgType == specqbft.ProposalMsgType {
+				prop = b
+			}
+		}
+		if prop == nil {
+			continue
+		}
+		// a correct follower that also moved to this round accepts it and prepares
+		var follower spectypes.OperatorID
+		for _, c := range r.share.Committee {
+			if c.OperatorID != leader {
+				follower = c.OperatorID
+			}
+		}
+		f := zzNewRig(n, follower, height, value)
+		f.valOK = true
+		for f.inst.State.Round < round {
+			zzAssume(f.inst.UponRoundTimeout(f.lg) == nil)
+		}
+		fb := len(f.net.msgs)
+		_, _, _, err := f.inst.ProcessMsg(f.lg, zzCopyMsg(prop))
+		if err == nil && len(f.net.msgs) == fb+1 && f.net.msgs[fb] != nil && f.net.msgs[fb].Message.MsgType == specqbft.PrepareMsgType {
+			worked++
+		}
+	}
+	if shape == 3 {
+		zzReach("mixed-prepared-values")
+	}
+	zzAssert(worked >= 1, "some-delivery-order-lets-the-leader-propose-and-followers-prepare")
+	zzReach("end")
+}
